@@ -116,16 +116,20 @@ class UMNDirHandler(DirHandler):
             fileentriesdict[entry.selector] = entry
 
         for linkentry in self.linkentries:
+            # Types X and - are never displayed (nor sent to clients).
+            hidden = linkentry.gettype() == "X" or linkentry.gettype() == "-"
             if not linkentry.getneedsmerge():
-                self.fileentries.append(linkentry)
+                if not hidden:
+                    self.fileentries.append(linkentry)
                 continue
             if linkentry.selector in fileentriesdict:
-                if linkentry.gettype() == "X":
+                if hidden:
                     # It's special code to hide something.
-                    self.fileentries.remove(fileentriesdict[linkentry.selector])
+                    if fileentriesdict[linkentry.selector] in self.fileentries:
+                        self.fileentries.remove(fileentriesdict[linkentry.selector])
                 else:
                     self.mergeentries(fileentriesdict[linkentry.selector], linkentry)
-            else:
+            elif not hidden:
                 self.fileentries.append(linkentry)
 
     def mergeentries(self, old: GopherEntry, new: GopherEntry) -> None:
